@@ -19,7 +19,7 @@ GEN_THEOREMS = ["base_match_tracking", "dual_match_tracking", "topo_match_tracki
                 "bayes_match_tracking", "operator_strict", "base_match_bin", "bayes_match_bin",
                 # the search loop of BaseART.step_fit, translated statement by statement (ctrans.py -> ArtGen/Control.lean)
                 "Control.loop_follows_search", "Control.body_spec", "Control.activations_spec", "Control.step_fit_refines",
-                "Control.scalar_contract", "Control.scalar_step_fit"]
+                "Control.scalar_contract", "Control.scalar_step_fit", "Control.bayes_gcontract", "Control.bayes_fit"]
 
 
 def prepare(ctx):
